@@ -1,7 +1,7 @@
 /-
   Driver handler for the C15 correspondence stream.
 
-  op line:  c15.run <fuel> <program>      (tokens separated by single spaces, prefix encoding)
+  op line:  c15.run <fuel> <program>   |   c15.runtx <fuel> <program>  (the answer ends with | commit or | nocommit)      (tokens separated by single spaces, prefix encoding)
 
     program := <n> stmt*n
     stmt    := D<x> expr            VAR @x := expr
@@ -25,7 +25,8 @@
     expr    := n | t | f | u | i<int> | v<x> | + e e | - e e | < e e | = e e | c<f> <na> expr*na
 
   answer:   <flow> | <printed values, oldest first> | <variables of every block left, innermost first, blocks
-            separated by "/"> | <functions …, as name:number of parameters>
+            separated by "/"> | <functions …, as name:number of parameters> | commit / nocommit (Processor.Execute
+            with AutoCommit: are the changes of the run committed?)
     flow    := N (Terminate) | X (Exit) | B | K | R<value> (Break / Continue / Return reaching the top level: only in
                syntax trees csvq's parser rejects) | E<csvq error number> | Efuel
     value   := N | I<int> | TT | TF | TU
@@ -226,13 +227,13 @@ def sortByKey {α : Type} (l : List (Nat × α)) : List (Nat × α) :=
 def joinOr (dflt : String) (l : List String) : String :=
   if l.isEmpty then dflt else String.intercalate "," l
 
-def showRun (r : PRes) : String :=
+def showRun (tx : Bool) (r : PRes) : String :=
   let vars := r.st.blocks.map fun b =>
     joinOr "-" ((sortByKey b.vars).map fun (k, v) => toString k ++ "=" ++ (if k ≥ 200 then showCursor v else showVal v))
   let funs := r.st.blocks.map fun b =>
     joinOr "-" ((sortByKey b.funs).map fun (k, d) => toString k ++ ":" ++ toString d.params.length)
   String.intercalate " | " [showOutcome r.outcome, joinOr "-" (r.st.out.reverse.map showVal),
-    String.intercalate "/" vars, String.intercalate "/" funs]
+    String.intercalate "/" vars, String.intercalate "/" funs] ++ (if tx then (if r.commits then " | commit" else " | nocommit") else "")
 
 end C15
 
@@ -240,7 +241,11 @@ def c15 (cmd : String) (args : List String) : String :=
   match cmd, args with
   | "run", fuel :: prog =>
     match fuel.toNat?, C15.pBlock prog with
-    | some fuel, some (p, []) => C15.showRun (executeI fuel p none St.init)
+    | some fuel, some (p, []) => C15.showRun false (executeI fuel p none St.init)
+    | _, _ => "bad-op"
+  | "runtx", fuel :: prog =>      -- the run also changed a file table: is it committed at the end?
+    match fuel.toNat?, C15.pBlock prog with
+    | some fuel, some (p, []) => C15.showRun true (executeI fuel p none St.init)
     | _, _ => "bad-op"
   | _, _ => "bad-op"
 
